@@ -101,3 +101,27 @@ def inrange(x, lo, hi):
 
 def all_inrange(xs, lo, hi):
   return all([inrange(x, lo, hi) for x in xs])
+
+
+def gate(*vals):
+  """Shard membership decided in the harness body from already-decoded
+  (concrete) leading choices; every shard walks the few leading forks, only
+  the owning shard continues.  Returns True when this shard owns the input."""
+  # hash of a tuple of ints is deterministic (no hash seed involved) and mixes well
+  return hash(tuple(int(v) for v in vals)) % SHARD_K == SHARD_R
+
+
+def untraced(fn):
+  """Runs a helper that only touches CONCRETE data outside CrossHair's tracer
+  (pure bookkeeping: invariants over decoded objects, reprs, snapshots)."""
+  import functools  # pylint: disable=g-import-not-at-top
+  try:
+    from crosshair.tracers import NoTracing  # pylint: disable=g-import-not-at-top
+  except ImportError:
+    return fn
+
+  @functools.wraps(fn)
+  def wrapper(*a, **kw):
+    with NoTracing():
+      return fn(*a, **kw)
+  return wrapper
